@@ -85,6 +85,36 @@ class Analysis:
                 raise K.Unfoldable('dead end')
             n = nxt[0]
 
+    def calls_under(self, func, subst, limit=2000):
+        """Callee names reachable in func when the expressions in `subst`
+        (normalised text -> value) are known: conditions that fold are
+        followed on one side only, the others on both."""
+        cfg = self.cfg(func)
+        ctx = K.ctx_for(self.repo, func)
+        ctx.subst = dict(subst)
+        ctx.env = {}
+        seen, todo, out = set(), [cfg.entry], set()
+        while todo:
+            n = todo.pop()
+            if n.id in seen:
+                continue
+            seen.add(n.id)
+            if len(seen) > limit:
+                raise K.Unfoldable('too many nodes')
+            for c in n.calls():
+                out |= set(self.callee_names(func, c))
+            if n.kind == 'cond':
+                try:
+                    want = bool(K.fold(n.ast, ctx))
+                except K.Unfoldable:
+                    want = None
+                for m, lab in n.succs:
+                    if want is None or lab is want or lab not in (True, False):
+                        todo.append(m)
+            else:
+                todo.extend(m for m, _l in n.succs)
+        return out
+
     def run_rule(self, rule_obj):
         run = RuleRun(rule_obj, self)
         rule_obj.fn(run)
